@@ -143,6 +143,13 @@ impl Report {
     }
 
     pub fn violation(&mut self, key: &str, what: &str, case: Value) {
+        // a case found under the short-read shim is replayed under it
+        let mut case = case;
+        if std::env::var_os("SHORTREAD_MAX").is_some() {
+            if let Some(o) = case.as_object_mut() {
+                o.insert("environment".into(), serde_json::json!("short-reads"));
+            }
+        }
         let n = self.violations.len();
         let e = self
             .violations
